@@ -43,6 +43,7 @@ def is_sink(site):
 
 def resolver_checks(ctx, f, mode):
     """is_absolute / ParentDir tests whose taken edge cannot reach an Ok return."""
+    from ..prov import sources
     errs = [bi for (bi, si, st) in f.aggregates(r'^core::result::Result$', 'Err')]
     rets = f.returns()
 
@@ -50,31 +51,41 @@ def resolver_checks(ctx, f, mode):
         """every path from tgt to a return constructs an Err first."""
         return bool(errs) and f.must_pass(errs, tgt, rets)
     # --- ParentDir
-    anys = f.calls(r'Iterator::any$|::any$')
-    pd_ok = False
-    why = 'no components().any(ParentDir) test'
-    for a in anys:
-        o = f.origin(a.args[1]) if len(a.args) > 1 else None
+    def is_pd_any(g, a):
+        """`components().any(|c| matches!(c, Component::ParentDir))` in g."""
+        o = g.origin(a.args[1]) if len(a.args) > 1 else None
         cdef = o[1]['def'] if o and o[0] == 'rv' and o[1].get('ak') == 'closure' else None
         cf = ctx.prog.fns.get(cdef) if cdef else None
         if cf is None:
-            continue
+            return False
         comp = any('std::path::Component' in l['ty'] for l in cf.locals)
         pd_switch = any(('3' in ts) for (bi, on, ts, els) in switches(cf))
-        if not (comp and pd_switch):
+        return comp and pd_switch
+    tests = [a for a in f.calls(r'Iterator::any$|::any$') if is_pd_any(f, a)]
+    # the same predicate extracted into a private helper `fn(&Path) -> bool` whose result is the any(..) itself
+    for hs in f.sites():
+        h = ctx.prog.fns.get(hs.callee)
+        sg = ctx.prog.sigs.get(hs.callee)
+        if h is None or sg is None or sg['output'] != 'bool' or h.crate != f.crate:
             continue
+        inner = [a for a in h.calls(r'Iterator::any$|::any$') if is_pd_any(h, a)]
+        if inner and any(x[0] == 'call' and re.search(r'::any$', x[1]) for x in sources(h, {'c': {'l': 0}})) and not [x for x in sources(h, {'c': {'l': 0}}) if x[0] == 'const']:
+            ctx.touch(h)
+            tests.append(hs)
+    pd_ok = False
+    why = 'no components().any(ParentDir) test'
+    for a in tests:
         sw = f.switch_on_call(a)
         if sw is None:
             continue
         bb, ts, els, neg = sw
-        true_tgt = els
+        true_tgt = (ts.get('0') if neg else els)
         if refuses(true_tgt):
             pd_ok = True
         else:
             why = 'the ParentDir test does not lead to a refusal'
     ctx.ob('C13.1', f, 'refuses-parent-dir', pd_ok, '`..` segments are %s' % ('refused before the Ok return' if pd_ok else 'NOT refused (%s)' % why))
     # --- the value that is accepted is the value that was checked
-    from ..prov import sources
     chk_leaves = set()
     for a in f.calls(r'^std::path::Path::(is_absolute|components|has_root|strip_prefix)$'):
         chk_leaves |= set(sources(f, a.args[0]))
